@@ -1171,7 +1171,9 @@ pub fn generate(run_seed: u64, index: u64) -> Script {
     }
     // rarely: values of more than a page (1026 and 2056 bytes) so that one value spans
     // three copy-on-write pages
-    let huge = rng.chance(1, 60);
+    // (constant memories only: a page-sized load from an expression memory builds and
+    // evaluates an expression tree of thousands of nodes per byte and takes seconds)
+    let huge = !expression && rng.chance(1, 60);
     if huge {
         // 1026 bytes span three pages only from the last bytes of a page; 2056 bytes always do
         widths.push(*rng.pick(&[8208usize, 16448]));
@@ -1217,6 +1219,35 @@ pub fn generate(run_seed: u64, index: u64) -> Script {
                 data: to_hex(&rng.bytes(24)),
                 perms: 5,
             });
+        }
+        if !big_backing && rng.chance(1, 4) {
+            // a backing assembled from overlapping set_memory calls (later ones win), with
+            // starts and ends on a 4-byte grid so that boundaries coincide
+            regions.clear();
+            let z = zones[0].0;
+            let mut points: Vec<u64> = Vec::new();
+            for _ in 0..rng.range(3, 5) {
+                // starts and ends are drawn from the boundaries already in use half of the
+                // time: adjacent sections, and patches ending exactly where a section ends
+                let mut start = z + 4 * rng.below(10);
+                if !points.is_empty() && rng.chance(1, 2) {
+                    start = *rng.pick(&points);
+                }
+                let mut len = 4 * rng.range(1, 6);
+                if !points.is_empty() && rng.chance(1, 2) {
+                    let end = *rng.pick(&points);
+                    if end > start && end - start <= 64 {
+                        len = end - start;
+                    }
+                }
+                points.push(start);
+                points.push(start + len);
+                regions.push(Region {
+                    address: start,
+                    data: to_hex(&rng.bytes(len as usize)),
+                    perms: *rng.pick(&[1u32, 3, 5, 7, 4, 0]),
+                });
+            }
         }
         if big_backing {
             let start = (zones[0].0 & !1023).saturating_sub(2048);
